@@ -263,6 +263,17 @@ class Cid(object):
         else:
             self._data_format.set_property(name.lower(), value, self._location)
 
+    @staticmethod
+    def _rows_of_cid(rows):
+        """
+        Same as ``rows`` but in case they cannot be parsed report it as broken interface instead of broken data.
+        """
+        try:
+            for row in rows:
+                yield row
+        except errors.DataFormatError as error:
+            raise errors.InterfaceError("cannot read CID: %s" % error.message, error.location)
+
     def read(self, cid_path, rows):
         """
         Provided no ``cid_path`` has already been specified for
@@ -287,7 +298,7 @@ class Cid(object):
         if self._cid_path is None:
             self._cid_path = cid_path
         self._examples_to_validate_after_reading = []
-        for row in rows:
+        for row in Cid._rows_of_cid(rows):
             if row:
                 row_type = row[0].lower().strip()
                 row_data = (row[1:] + [""] * 6)[:6]
